@@ -1784,7 +1784,7 @@ fn main() {
 
         add(reg, "KeyValueRadixSort::sort_by_key", &format!("key types u32 and u64 x {INT_SPACE}; value = original index; default config (the type offers no other); thorough adds n=20001 (parallel split)"), kv_gen, run_kv_case);
 
-        // LsdRadix first: known findings with subject "AdvancedRadixSort[*" are replayed on the first registered match
+        // LsdRadix first: known findings with subject "AdvancedRadixSort[*" are replayed on the matching subjects in registration order
         let mut strats = vec![Strat::Forced(SortingStrategy::LsdRadix)];
         strats.extend(ALL_STRATS.iter().copied().filter(|s| *s != Strat::Forced(SortingStrategy::LsdRadix)));
         for strat in strats {
